@@ -409,6 +409,18 @@ example : (match LL.construct exCtor with
     | .error _ => (false, none)) =
     (true, some (.ok [⟨⟨1, 4⟩, ⟨1, 10⟩⟩, ⟨⟨1, 4⟩, ⟨1, 4⟩⟩, ⟨⟨1, 4⟩, ⟨1, 7⟩⟩, ⟨⟨1, 8⟩, ⟨1, 10⟩⟩])) := by
   decide +kernel
+/-- … and when the fallback after the roll-back is a non-empty production whose children match nothing
+(`LABEL → WORD SEMI | OPT`, `OPT → SEMI | ()`): `LABEL` and `OPT` are both empty at `foo` (1,4); nothing of
+the failed attempt `WORD SEMI` is left in the span -/
+def exCtor2 : LL.CtorIn :=
+  { exCtor with prods := [("E".toList, [["LABEL".toList, "WORD".toList, "NUM".toList]]),
+                          ("LABEL".toList, [["WORD".toList, "SEMI".toList], ["OPT".toList]]),
+                          ("OPT".toList, [["SEMI".toList], []])] }
+example : (match LL.construct exCtor2 with
+    | .ok P => (parserOk P, (parseToks exNames ⟨[], [], [], 0⟩ P exToks2 100).map (·.map PTree.preorder))
+    | .error _ => (false, none)) =
+    (true, some (.ok [⟨⟨1, 4⟩, ⟨1, 10⟩⟩, ⟨⟨1, 4⟩, ⟨1, 4⟩⟩, ⟨⟨1, 4⟩, ⟨1, 4⟩⟩, ⟨⟨1, 4⟩, ⟨1, 7⟩⟩, ⟨⟨1, 8⟩, ⟨1, 10⟩⟩])) := by
+  decide +kernel
 /-- the text is the caller's text, character by character: a BOM, a zero-width space, a `\r` are characters
 like any other (only `str.isspace` characters at the end of a line are stripped, for a `str`), a column counts
 characters -/
